@@ -60,6 +60,8 @@ func init() {
 }
 
 func runC01(c *Ctx, r *Report) {
+	importFoundation(c, r, "C01", "queue")
+	importFoundation(c, r, "C01", "transport-pipe")
 	r.Rule("C01/explicit-matcher", "the exact echo matcher tests that the search window contains the input", 1)
 	r.Rule("C01/ansi-bounded", "no unbounded repetition of the escape-sequence pattern admits ESC or newline", 1)
 	checkExplicitMatcherArgs(c, r, "C01/explicit-matcher")
